@@ -27,6 +27,12 @@ ANCHORS = ("Unit.__mul__", "Unit.__truediv__", "Unit.__pow__",
 KINDS2 = ["qq", "qu", "uq", "uu", "qn", "nq", "un", "nu"]
 
 
+def _inplace(rng, op):
+    """one time in ten the augmented-assignment form of the operator (the
+    same operation unless a type grows an in-place method)"""
+    return op + "=" if rng.random() < 0.1 else op
+
+
 def op_case(chk, w, rng, op, s1, s2, kinds, wid, x1=None, x2=None,
             extra_steps=None):
     k1, k2 = kinds
@@ -34,11 +40,11 @@ def op_case(chk, w, rng, op, s1, s2, kinds, wid, x1=None, x2=None,
     e2, m2 = operand(rng, w, s2, k2, x2)
     if op == "**":
         n = x2
-        steps = [{"k": "r", "e": OP("**", e1, ["i", n])}]
+        steps = [{"k": "r", "e": OP(_inplace(rng, "**"), e1, ["i", n])}]
         pred = w.predict_pow(m1, n)
         desc = "(%s) ** %d" % (describe_operand(m1), n)
     else:
-        steps = [{"k": "r", "e": OP(op, e1, e2)}]
+        steps = [{"k": "r", "e": OP(_inplace(rng, op), e1, e2)}]
         pred = w.predict_mul(op, m1, m2)
         desc = "(%s) %s (%s)" % (describe_operand(m1), op,
                                  describe_operand(m2))
@@ -127,7 +133,8 @@ def rand_op(rng, w, key):
         n = rng.choice([-3, -2, -1, 0, 1, 2, 3])
         k = rng.choice("qu")
         e1, m1 = operand(rng, w, s1, k)
-        return ({"k": key, "e": OP("**", e1, ["i", n]), "_m": (m1, n)},
+        return ({"k": key, "e": OP(_inplace(rng, "**"), e1, ["i", n]),
+                 "_m": (m1, n)},
                 w.predict_pow(m1, n),
                 "(%s) ** %d" % (describe_operand(m1), n), False,
                 (k, "n"), "**")
@@ -136,7 +143,7 @@ def rand_op(rng, w, key):
     op = rng.choice("*/")
     e1, m1 = operand(rng, w, s1, kinds[0])
     e2, m2 = operand(rng, w, s2, kinds[1])
-    return ({"k": key, "e": OP(op, e1, e2), "_m": (m1, m2)},
+    return ({"k": key, "e": OP(_inplace(rng, op), e1, e2), "_m": (m1, m2)},
             w.predict_mul(op, m1, m2),
             "(%s) %s (%s)" % (describe_operand(m1), op,
                               describe_operand(m2)),
